@@ -357,9 +357,54 @@ def r4_rejected_by_add(ctx, res):
         res.find(key, f.module.loc(f.node), 'the sense-relation splitter no longer raises for a target that is neither a sense nor a synset')
 
 
+def r5_reference_predicates(ctx, res):
+    """E204 / E401 test references exactly the way the importer resolves them: a sense's synset and a synset relation's
+    target must be synset ids; a sense relation's target a sense id or a synset id (the importer's three-way split)."""
+    f = ctx.repo.func('validate', '_missing_relation_target')
+    loc = f.module.loc(f.node)
+    comps = [n for n in walk_no_nested(f.node) if isinstance(n, (ast.DictComp, ast.GeneratorExp, ast.ListComp, ast.SetComp))]
+    seen = {}
+    for c in comps:
+        its = [norm(g.iter) for g in c.generators]
+        conds = ' and '.join(norm(x) for g in c.generators for x in g.ifs)
+        for kind in ('_sense_relations(lex)', '_synset_relations(lex)'):
+            if kind in its:
+                seen[kind] = conds
+        if not any(k in its for k in ('_sense_relations(lex)', '_synset_relations(lex)')) and c.generators:
+            seen.setdefault('other:' + its[0], conds)
+    key = 'E401:synset-relations'
+    res.inst(key, loc, seen.get('_synset_relations(lex)', 'missing'))
+    c = seen.get('_synset_relations(lex)')
+    if c is None or "ids['sense']" in c or "r['target'] not in ids['synset']" not in c:
+        res.find(key, loc, f'E401 tests synset-relation targets with `{c}` (comprehensions found: {seen}); a synset relation must point to a '
+                           f'synset id - the importer resolves it in `synsets` only, so a target that is a sense id is rejected by add() '
+                           f'but would not be reported')
+    key = 'E401:sense-relations'
+    res.inst(key, loc, seen.get('_sense_relations(lex)', 'missing'))
+    c = seen.get('_sense_relations(lex)')
+    if c is None or "r['target'] not in ids['sense']" not in c or "r['target'] not in ids['synset']" not in c:
+        res.find(key, loc, f'E401 tests sense-relation targets with `{c}`; expected "neither a sense id nor a synset id" (the importer\'s split)')
+    g = ctx.repo.func('validate', '_missing_synset')
+    key = 'E204:predicate'
+    s2 = norm(g.node)
+    res.inst(key, g.module.loc(g.node), "s['synset'] not in ids['synset']")
+    if "synset_ids = ids['synset']" not in s2 or "if s['synset'] not in synset_ids" not in s2:
+        res.find(key, g.module.loc(g.node), 'E204 no longer tests the synset of every sense against the synset ids of the lexicon')
+    # the ids table is built from entries / senses / synsets
+    v = ctx.repo.func('validate', 'validate')
+    key = 'ids-table'
+    s3 = norm(v.node)
+    res.inst(key, v.module.loc(v.node), 'entry / sense / synset id counters')
+    for needle in ("'entry': Counter((entry['id'] for entry in _entries(lex)))", "'synset': Counter((synset['id'] for synset in _synsets(lex)))",
+                   "'sense': Counter((sense['id'] for entry in _entries(lex) for sense in _senses(entry)))"):
+        if needle not in s3:
+            res.find(key + ':' + needle[:10], v.module.loc(v.node), f'validate() no longer builds `{needle[:40]}...`')
+
+
 RULES = [
     ('C18-R1', r1_totality, 70),
     ('C18-R2', r2_registry, 20),
     ('C18-R3', r3_relation_tables, 80),
     ('C18-R4', r4_rejected_by_add, 9),
+    ('C18-R5', r5_reference_predicates, 4),
 ]
